@@ -5,7 +5,7 @@ import ast
 
 from .. import logic
 from ..cfg import CFG
-from ..core import (AnalysisError, DefRef, NotConst, Ref, call_name, calls_in, dotted, enclosing_conditions, enclosing_conditions_expanded,
+from ..core import (AnalysisError, DefRef, NotConst, Ref, call_name, calls_in, dotted, enclosing_conditions, enclosing_conditions_expanded, expand_aliases,
                     func_params, get_kw, norm, qualname_of, walk_no_nested)
 
 PROPERTY = "C14"
@@ -153,6 +153,25 @@ def check_submodule_attributes(ctx, rule, using):
     ctx.floor(rule, "package-attribute accesses to sub-modules in the JSON packer / adapter", n, 1)
 
 
+def expand_at(cfg, e, node_id, aliases):
+    """`e` with every local that has exactly one plain assignment reaching CFG node `node_id` replaced by the assigned expression (locals
+    assigned once in the whole function are expanded through `aliases` as before)."""
+    import copy as _copy
+    repl = {}
+    for nm in [x for x in ast.walk(e) if isinstance(x, ast.Name) and isinstance(x.ctx, ast.Load) and x.id not in aliases]:
+        defs_ = cfg.reaching_defs(nm.id).get(node_id, set())
+        if len(defs_) == 1:
+            dn_ = cfg.nodes[next(iter(defs_))].ast
+            if isinstance(dn_, ast.Assign) and len(dn_.targets) == 1 and norm(dn_.targets[0]) == nm.id:
+                repl[nm.id] = dn_.value
+    if repl:
+        class _R(ast.NodeTransformer):
+            def visit_Name(self, n):
+                return _copy.deepcopy(repl[n.id]) if isinstance(n.ctx, ast.Load) and n.id in repl else n
+        e = _R().visit(_copy.deepcopy(e))
+    return expand_aliases(e, aliases)
+
+
 def json_line_writers(ctx):
     """The methods of JsonfileWriter that put a line on the file: the private `_write` where it exists, otherwise (the helper folded into
     its two callers) every method that calls self.fp.write. At least one must exist."""
@@ -273,6 +292,13 @@ def run(ctx):
                 for c in ast.walk(src):
                     if isinstance(c, ast.Call) and "b64decode" in norm(c.func) and c.args:
                         arg = expand_aliases(c.args[0], ual)
+                        if isinstance(arg, ast.Name):
+                            # the value fetched once into a local (assigned in each type branch): the definition that reaches this statement
+                            defs_ = ucfg.reaching_defs(arg.id).get(nd.id, set())
+                            if len(defs_) == 1:
+                                dn_ = ucfg.nodes[next(iter(defs_))].ast
+                                if isinstance(dn_, ast.Assign) and len(dn_.targets) == 1 and norm(dn_.targets[0]) == arg.id:
+                                    arg = expand_aliases(dn_.value, ual)
                         whole = isinstance(arg, ast.Subscript) and norm(arg) == norm(t)
                         kinds.add("scalar" if whole else "elementwise")
         if "scalar" in kinds and "elementwise" not in kinds:
@@ -328,7 +354,8 @@ def run(ctx):
                 tgt_text = norm(tgt)
                 fal0 = single_assign_aliases(fn)
                 vx = expand_aliases(st.value, fal0)
-                if not any(norm(n) == tgt_text for n in ast.walk(vx) if isinstance(n, ast.Subscript)):
+                vx2 = expand_at(cfg, st.value, cfg.node_of(st).id, fal0)
+                if not any(norm(n) == tgt_text for v_ in (vx, vx2) for n in ast.walk(v_) if isinstance(n, ast.Subscript)):
                     # a list accumulated from the slot's elements also converts the slot
                     if not (isinstance(st.value, ast.Name) and any(norm(x) == tgt_text or (isinstance(x, ast.Name) and x.id in fal0 and norm(fal0[x.id]) == tgt_text)
                                                                     for l in ast.walk(fn) if isinstance(l, ast.For) for x in [l.iter])):
@@ -339,7 +366,8 @@ def run(ctx):
                 node = cfg.node_of(st)
                 facts = [(t, p) for t, p, _ in cfg.facts_at(node.id)]
                 fal = single_assign_aliases(fn)
-                same = {tgt_text} | {k for k, v in fal.items() if norm(v) == tgt_text}
+                same = {tgt_text} | {k for k, v in fal.items() if norm(v) == tgt_text} | \
+                    {x.id for x in ast.walk(st.value) if isinstance(x, ast.Name) and norm(expand_at(cfg, x, node.id, fal)) == tgt_text}
                 ok = any(none_excluded(facts, x) for x in same)
                 ctx.check(ok, "R14.2", f"{fn.name}:{norm(st)[:60]}", f"`{norm(st)[:80]}` runs for an unset (None) field: " +
                           ("null is decoded with a conversion that raises / invents a value" if fn is unpack_obj else "None is written as a non-null JSON value and reads back as a set field"),
